@@ -549,6 +549,11 @@ def gen_c12(tier, seed):
             for via in (False, True):
                 cases.append({"funcs": [dict(f), dict(plain)], "strategy": "REPLICATE", "k": 0, "family": "c12_functools_wraps_decorated",
                               "via_cli": via})
+    # a read-only property whose GETTER sits below a functools.wraps decorator
+    for via in (False, True):
+        f = {"name": "balance", "container": ["Cls"], "fkind": "property", "params": [], "wraps": True, "traces": [{"args": {}, "ret": INT, "yld": None}]}
+        g = {"name": "plain_prop", "container": ["Cls"], "fkind": "property", "params": [], "traces": [{"args": {}, "ret": STR, "yld": None}]}
+        cases.append({"funcs": [f, g], "strategy": "REPLICATE", "k": 0, "family": "c12_property_getter_below_functools_wraps", "via_cli": via})
     # a functools.cached_property (no decorator is prescribed in the stub; whatever is written must resolve)
     for via in (False,):      # (not through the store: on this tree a stored trace of such a getter cannot exist - the tracer's lookup
                               # does not reach it - and decoding rejects it)
